@@ -666,7 +666,7 @@ class Kernel:
             if name == "fd":
                 return Link(fd.target)
             return (b"pos:\t%d\nflags:\t%s\nmnt_id:\t29\nino:\t100\n"
-                    % (fd.pos, ("0%o" % fd.flags).encode()))
+                    % (fd.pos, ("0%o" % fd.flags).encode())) + getattr(fd, "extra", b"")
         if name == "task":
             tl = p.thread_list()
             if len(parts) == 1:
